@@ -1004,6 +1004,17 @@ func (t *Term) Known() (kz, ko uint64) {
 func (t *Term) URange() (lo, hi uint64) {
 	kz, ko := t.Known()
 	lo, hi = ko, ^kz&mask(t.Sort.W)
+	if t.Op == OZext {
+		// zero extension keeps the unsigned value
+		alo, ahi := t.Args[0].URange()
+		if alo > lo {
+			lo = alo
+		}
+		if ahi < hi {
+			hi = ahi
+		}
+		return
+	}
 	if t.Op == OAdd && t.Sort.W <= 64 {
 		// interval sum when it cannot wrap
 		alo, ahi := t.Args[0].URange()
